@@ -6,6 +6,7 @@ extern crate alloc;
 
 verus! {
 
+//@features utf8
 //@item crates/anstyle-parse/src/params.rs const MAX_PARAMS
 //@item crates/anstyle-parse/src/params.rs struct Params nostructural
 //@item crates/anstyle-parse/src/params.rs struct ParamsIter nostructural
@@ -196,6 +197,46 @@ impl<'a> ParamsIter<'a> {
 
 //@item crates/anstyle-parse/src/lib.rs const MAX_INTERMEDIATES
 //@item crates/anstyle-parse/src/lib.rs const MAX_OSC_PARAMS
+//@if core
+//@item crates/anstyle-parse/src/lib.rs const MAX_OSC_RAW
+
+// arrayvec::ArrayVec (third-party, `core` feature): stand-in with the documented contract of the
+// four methods the parser uses.  ASSUMED (arrayvec is not verified here): push requires !is_full.
+#[verifier::external_body]
+#[verifier::reject_recursive_types(T)]
+struct ArrayVec<T, const CAP: usize> {
+    _p: core::marker::PhantomData<T>,
+}
+
+impl<T, const CAP: usize> ArrayVec<T, CAP> {
+    uninterp spec fn view(&self) -> Seq<T>;
+
+    #[verifier::external_body]
+    fn len(&self) -> (r: usize)
+        ensures r == self.view().len(), r <= CAP,
+    { unimplemented!() }
+
+    #[verifier::external_body]
+    fn is_full(&self) -> (r: bool)
+        ensures r == (self.view().len() == CAP), self.view().len() <= CAP,
+    { unimplemented!() }
+
+    #[verifier::external_body]
+    fn push(&mut self, element: T)
+        requires old(self).view().len() < CAP,
+        ensures final(self).view() == old(self).view().push(element),
+    { unimplemented!() }
+
+    #[verifier::external_body]
+    fn clear(&mut self)
+        ensures final(self).view() == Seq::<T>::empty(),
+    { unimplemented!() }
+}
+
+spec fn osc_cap() -> Option<int> { Some(MAX_OSC_RAW as int) }
+//@else
+spec fn osc_cap() -> Option<int> { None }
+//@endif
 //@item crates/anstyle-parse/src/lib.rs struct Parser noderive nodefault
 
 // Interface traits replaced by their contract (rule E6).
@@ -271,6 +312,7 @@ where
                 && (i > 0 ==> self.osc_params@[i].0 == self.osc_params@[i - 1].1)
     }
 
+    #[verifier::opaque]
     spec fn wf(&self) -> bool {
         &&& self.state != State::Anywhere
         &&& self.params.wf()
@@ -294,9 +336,10 @@ where
     }
 
     proof fn lemma_abs_st(&self)
-        ensures self.abs().st == self.state,
+        ensures self.abs().st == self.state, self.wf() ==> self.state != State::Anywhere,
     {
         reveal(Parser::abs);
+        reveal(Parser::wf);
     }
 
     /// assigning the state field changes exactly `st` of the abstraction
@@ -314,6 +357,7 @@ where
     {
         reveal(Parser::abs);
         reveal(Parser::osc_wf);
+        reveal(Parser::wf);
         lemma_mp_ext(other.abs(), MP { st: ns, ..self.abs() });
     }
 
@@ -350,6 +394,7 @@ where
         proof {
             reveal(Parser::abs);
             reveal(Parser::osc_wf);
+            reveal(Parser::wf);
             assert(log0 + Seq::<Event>::empty() =~= log0);
             assert(forall|e: Event| #[trigger] log0.push(e) =~= log0 + seq![e]);
         }
@@ -357,7 +402,7 @@ where
             proof { lemma_mp_ext(self.abs(), m_utf8(old(self).abs(), byte).0); }
 //@end
 
-#[verifier::rlimit(40)]
+#[verifier::rlimit(100)]
 //@fn crates/anstyle-parse/src/lib.rs Parser::perform_action
 //@contract
     requires
@@ -365,8 +410,8 @@ where
         action == Action::Param ==> 0x30 <= byte <= 0x3b,
     ensures
         final(self).wf(),
-        final(self).abs() == model_action(old(self).abs(), action, byte, None).0,
-        final(performer).log() == old(performer).log() + model_action(old(self).abs(), action, byte, None).1,
+        final(self).abs() == model_action(old(self).abs(), action, byte, osc_cap()).0,
+        final(performer).log() == old(performer).log() + model_action(old(self).abs(), action, byte, osc_cap()).1,
 //@before 1 match action {
         let ghost m0 = self.abs();
         let ghost log0 = performer.log();
@@ -374,6 +419,7 @@ where
             reveal(model_action);
             reveal(Parser::abs);
             reveal(Parser::osc_wf);
+            reveal(Parser::wf);
             self.params.lemma_len();
             assert(m_len(m0) == self.params.len);
             assert(forall|e: Event| #[trigger] log0.push(e) =~= log0 + seq![e]);
@@ -382,36 +428,36 @@ where
 //@after 1 performer.hook(self.params(), self.intermediates(), self.ignoring, byte);
                 proof {
                     assert(self.params.open().len() == self.params.current_subparams);
-                    lemma_mp_ext(self.abs(), model_action(m0, Action::Hook, byte, None).0);
+                    lemma_mp_ext(self.abs(), model_action(m0, Action::Hook, byte, osc_cap()).0);
                 }
 //@after 1 performer.csi_dispatch(self.params(), self.intermediates(), self.ignoring, byte);
                 proof {
                     assert(self.params.open().len() == self.params.current_subparams);
-                    lemma_mp_ext(self.abs(), model_action(m0, Action::CsiDispatch, byte, None).0);
+                    lemma_mp_ext(self.abs(), model_action(m0, Action::CsiDispatch, byte, osc_cap()).0);
                 }
 //@after 1 self.osc_num_params = 0;
-                proof { lemma_mp_ext(self.abs(), model_action(m0, Action::OscStart, byte, None).0); }
+                proof { lemma_mp_ext(self.abs(), model_action(m0, Action::OscStart, byte, osc_cap()).0); }
 //@after 1 self.osc_num_params += 1;
-                    proof { lemma_mp_ext(self.abs(), model_action(m0, Action::OscPut, byte, None).0); }
+                    proof { lemma_mp_ext(self.abs(), model_action(m0, Action::OscPut, byte, osc_cap()).0); }
 //@after 1 self.osc_raw.push(byte);
-                    proof { lemma_mp_ext(self.abs(), model_action(m0, Action::OscPut, byte, None).0); }
+                    proof { lemma_mp_ext(self.abs(), model_action(m0, Action::OscPut, byte, osc_cap()).0); }
 //@before 1 self.osc_dispatch(performer, byte);
                 proof {
-                    lemma_mp_ext(self.abs(), model_action(m0, Action::OscEnd, byte, None).0);
+                    lemma_mp_ext(self.abs(), model_action(m0, Action::OscEnd, byte, osc_cap()).0);
                 }
 //@after 1 self.intermediate_idx += 1;
-                    proof { lemma_mp_ext(self.abs(), model_action(m0, Action::Collect, byte, None).0); }
+                    proof { lemma_mp_ext(self.abs(), model_action(m0, Action::Collect, byte, osc_cap()).0); }
 //@after 1 self.param = 0;
-                    proof { lemma_mp_ext(self.abs(), model_action(m0, Action::Param, byte, None).0); }
+                    proof { lemma_mp_ext(self.abs(), model_action(m0, Action::Param, byte, osc_cap()).0); }
 //@after 2 self.param = 0;
-                    proof { lemma_mp_ext(self.abs(), model_action(m0, Action::Param, byte, None).0); }
+                    proof { lemma_mp_ext(self.abs(), model_action(m0, Action::Param, byte, osc_cap()).0); }
 //@after 1 self.param = self.param.saturating_add((byte - b'0') as u16);
-                    proof { lemma_mp_ext(self.abs(), model_action(m0, Action::Param, byte, None).0); }
+                    proof { lemma_mp_ext(self.abs(), model_action(m0, Action::Param, byte, osc_cap()).0); }
 //@after 1 self.params.clear();
-                proof { lemma_mp_ext(self.abs(), model_action(m0, Action::Clear, byte, None).0); }
+                proof { lemma_mp_ext(self.abs(), model_action(m0, Action::Clear, byte, osc_cap()).0); }
 //@end
 
-#[verifier::rlimit(40)]
+#[verifier::rlimit(150)]
 //@fn crates/anstyle-parse/src/lib.rs Parser::perform_state_change
 //@contract
     requires
@@ -419,35 +465,35 @@ where
         action == Action::Param ==> 0x30 <= byte <= 0x3b,
     ensures
         final(self).wf(),
-        state == State::Anywhere ==> final(self).abs() == model_action(old(self).abs(), action, byte, None).0
-            && final(performer).log() == old(performer).log() + model_action(old(self).abs(), action, byte, None).1,
-        state != State::Anywhere ==> final(self).abs() == model_transition(old(self).abs(), state, action, byte, None).0
-            && final(performer).log() == old(performer).log() + model_transition(old(self).abs(), state, action, byte, None).1,
+        state == State::Anywhere ==> final(self).abs() == model_action(old(self).abs(), action, byte, osc_cap()).0
+            && final(performer).log() == old(performer).log() + model_action(old(self).abs(), action, byte, osc_cap()).1,
+        state != State::Anywhere ==> final(self).abs() == model_transition(old(self).abs(), state, action, byte, osc_cap()).0
+            && final(performer).log() == old(performer).log() + model_transition(old(self).abs(), state, action, byte, osc_cap()).1,
 //@before 1 match state {
         let ghost m0 = self.abs();
         let ghost log0 = performer.log();
         proof { assert(log0 + Seq::<Event>::empty() =~= log0); self.lemma_abs_st(); }
 //@before 1 match action {
-                let ghost r1 = m_exit(m0, byte, None);
+                let ghost r1 = m_exit(m0, byte, osc_cap());
                 proof {
-                    assert(Seq::<Event>::empty() + model_action(m0, Action::Unhook, byte, None).1 =~= model_action(m0, Action::Unhook, byte, None).1);
-                    assert(Seq::<Event>::empty() + model_action(m0, Action::OscEnd, byte, None).1 =~= model_action(m0, Action::OscEnd, byte, None).1);
+                    assert(Seq::<Event>::empty() + model_action(m0, Action::Unhook, byte, osc_cap()).1 =~= model_action(m0, Action::Unhook, byte, osc_cap()).1);
+                    assert(Seq::<Event>::empty() + model_action(m0, Action::OscEnd, byte, osc_cap()).1 =~= model_action(m0, Action::OscEnd, byte, osc_cap()).1);
                     assert(self.abs() == r1.0);
                     assert(performer.log() == log0 + r1.1);
                 }
 //@before 2 match state {
-                let ghost r2 = m_trans(r1, action, byte, None);
+                let ghost r2 = m_trans(r1, action, byte, osc_cap());
                 proof {
-                    assert((log0 + r1.1) + model_action(r1.0, action, byte, None).1 =~= log0 + (r1.1 + model_action(r1.0, action, byte, None).1));
+                    assert((log0 + r1.1) + model_action(r1.0, action, byte, osc_cap()).1 =~= log0 + (r1.1 + model_action(r1.0, action, byte, osc_cap()).1));
                     assert(self.abs() == r2.0);
                     assert(performer.log() == log0 + r2.1);
                 }
 //@before 1 self.state = state;
-                let ghost r3 = m_entry(r2, state, byte, None);
+                let ghost r3 = m_entry(r2, state, byte, osc_cap());
                 proof {
-                    assert((log0 + r2.1) + model_action(r2.0, Action::Clear, byte, None).1 =~= log0 + (r2.1 + model_action(r2.0, Action::Clear, byte, None).1));
-                    assert((log0 + r2.1) + model_action(r2.0, Action::Hook, byte, None).1 =~= log0 + (r2.1 + model_action(r2.0, Action::Hook, byte, None).1));
-                    assert((log0 + r2.1) + model_action(r2.0, Action::OscStart, byte, None).1 =~= log0 + (r2.1 + model_action(r2.0, Action::OscStart, byte, None).1));
+                    assert((log0 + r2.1) + model_action(r2.0, Action::Clear, byte, osc_cap()).1 =~= log0 + (r2.1 + model_action(r2.0, Action::Clear, byte, osc_cap()).1));
+                    assert((log0 + r2.1) + model_action(r2.0, Action::Hook, byte, osc_cap()).1 =~= log0 + (r2.1 + model_action(r2.0, Action::Hook, byte, osc_cap()).1));
+                    assert((log0 + r2.1) + model_action(r2.0, Action::OscStart, byte, osc_cap()).1 =~= log0 + (r2.1 + model_action(r2.0, Action::OscStart, byte, osc_cap()).1));
                     assert(self.abs() == r3.0);
                     assert(performer.log() == log0 + r3.1);
                 }
@@ -465,13 +511,75 @@ where
         old(self).wf(),
     ensures
         final(self).wf(),
-        final(self).abs() == model_step(old(self).abs(), byte, None).0,
-        final(performer).log() == old(performer).log() + model_step(old(self).abs(), byte, None).1,
+        final(self).abs() == model_step(old(self).abs(), byte, osc_cap()).0,
+        final(performer).log() == old(performer).log() + model_step(old(self).abs(), byte, osc_cap()).1,
 //@before 1 if let State::Utf8 = self.state {
         proof { self.lemma_abs_st(); }
 //@before 1 let (state, action) = state_change(self.state, byte);
         proof { lemma_vt_param(self.state, byte); }
 //@end
+}
+
+// ---- C20: the feature configurations differ only by their documented limits (spec level) ----
+
+/// fixed OSC buffer: as long as the payload fits, the capacity is unobservable
+proof fn lemma_cap_irrelevant_action<C: CharAccumulator>(m: MP<C>, a: Action, byte: u8, cap: int)
+    requires m.osc_raw.len() < cap || a != Action::OscPut,
+    ensures model_action(m, a, byte, None) == model_action(m, a, byte, Some(cap)),
+{
+    reveal(model_action);
+}
+
+proof fn lemma_cap_irrelevant_step<C: CharAccumulator>(m: MP<C>, byte: u8, cap: int)
+    requires m.osc_raw.len() < cap,
+    ensures model_step(m, byte, None) == model_step(m, byte, Some(cap)),
+{
+    if m.st != State::Utf8 {
+        let t = vt(m.st, byte);
+        if t.0 == State::Anywhere {
+            lemma_cap_irrelevant_action(m, t.1, byte, cap);
+        } else {
+            // exit and entry actions are never OscPut; only the transition action can be
+            let e1 = m_exit(m, byte, None);
+            lemma_cap_irrelevant_action(m, Action::Unhook, byte, cap);
+            lemma_cap_irrelevant_action(m, Action::OscEnd, byte, cap);
+            assert(m_exit(m, byte, Some(cap)) == e1);
+            lemma_exit_keeps_payload(m, byte);
+            lemma_cap_irrelevant_action(e1.0, t.1, byte, cap);
+            let e2 = m_trans(e1, t.1, byte, None);
+            assert(m_trans(e1, t.1, byte, Some(cap)) == e2);
+            lemma_cap_irrelevant_action(e2.0, Action::Clear, byte, cap);
+            lemma_cap_irrelevant_action(e2.0, Action::Hook, byte, cap);
+            lemma_cap_irrelevant_action(e2.0, Action::OscStart, byte, cap);
+        }
+    }
+}
+
+proof fn lemma_exit_keeps_payload<C: CharAccumulator>(m: MP<C>, byte: u8)
+    ensures m_exit(m, byte, None).0.osc_raw == m.osc_raw,
+{
+    reveal(model_action);
+}
+
+/// once the fixed buffer is full, payload bytes and separators are dropped and nothing else changes
+proof fn lemma_full_buffer_drops<C: CharAccumulator>(m: MP<C>, byte: u8, cap: int)
+    requires m.osc_raw.len() >= cap,
+    ensures model_action(m, Action::OscPut, byte, Some(cap)) == (m, Seq::<Event>::empty()),
+{
+    reveal(model_action);
+}
+
+/// without UTF-8 support: a 7-bit byte never starts or continues a multi-byte character, so the
+/// accumulator is never consulted and its choice is unobservable
+proof fn lemma_seven_bit_no_utf8<C: CharAccumulator>(m: MP<C>, byte: u8, cap: Option<int>)
+    requires byte < 0x80, m.st != State::Utf8,
+    ensures
+        vt(m.st, byte).1 != Action::BeginUtf8,
+        model_step(m, byte, cap).0.st != State::Utf8,
+        model_step(m, byte, cap).0.utf8 == m.utf8,
+{
+    reveal(vt);
+    reveal(model_action);
 }
 
 } // verus!
